@@ -50,6 +50,35 @@ def split_calls(ctx, indexs, nodes, nseg=3):
     return calls
 
 
+def split_layout(ctx, indexs, nodes, nseg=3):
+    """what JordanCurve.split does to a chain of nseg segments, in whatever order it works: the stand-in
+    __split_segment really replaces the addressed element of a model list, so the answer is {original segment ->
+    parameters it was cut at} -- or the first request that addressed a piece of an earlier cut / nothing at all"""
+    fn = ctx.fn("jordancurve.JordanCurve.split")
+    S = Obj("J", segments=tuple(Obj(f"s{i}") for i in range(nseg)))
+    layout = [(k, None) for k in range(nseg)]
+    cuts, wrong = {}, []
+
+    def hook(rn, ev, call, name, recv, args, kwargs):
+        if name and name.endswith("__split_segment") and recv is S:
+            i, nds = args[0], tuple(args[1])
+            if not isinstance(i, int) or not 0 <= i < len(layout):
+                wrong.append(f"position {i} of {len(layout)} segments")
+                return None
+            k, piece = layout[i]
+            if piece is not None or k in cuts:
+                wrong.append(f"position {i} is piece {piece} of segment {k}, cut before")
+                return None
+            cuts[k] = tuple(sorted(nds))
+            layout[i:i + 1] = [(k, j) for j in range(len(nds) + 1)]
+            return None
+        if name == "isinstance":
+            return True
+        return NotImplemented
+    Runner(ctx, set(), hook, asserts=True).call_fn(fn, [S, list(indexs), list(nodes)])
+    return cuts, wrong
+
+
 def r15_1(ctx):
     out = Outcome("R15.1", "JordanCurve.split ignores parameters equal (within its tolerance) to 0 and to 1 and keeps "
                            "every interior parameter", floor=5)
@@ -94,18 +123,33 @@ def r15_4(ctx):
               [(0, (Fr(1, 2),)), (3, (Fr(1, 4),))]),
              ("only end parameters on segments 0 and 1, an interior one on segment 2", [0, 1, 2], [Fr(1), Fr(0), Fr(2, 3)],
               [(2, (Fr(2, 3),))])]
+    # curves with many segments: segment numbers like 1 and 8 (a set of small integers is traversed in the order of
+    # its hash slots: 8 before 1), handed over in either order
+    cases += [("ten segments, nodes on segments 1 and 8", [1, 8], [Fr(1, 2), Fr(1, 3)], [(1, (Fr(1, 2),)), (9, (Fr(1, 3),))]),
+              ("ten segments, nodes on segments 8 and 1", [8, 1], [Fr(1, 3), Fr(1, 2)], [(1, (Fr(1, 2),)), (9, (Fr(1, 3),))]),
+              ("twelve segments, two nodes on segment 2, one on 9, one on 11", [9, 2, 11, 2], [Fr(1, 2), Fr(1, 4), Fr(2, 3), Fr(3, 4)],
+               [(2, (Fr(1, 4), Fr(3, 4))), (11, (Fr(1, 2),)), (14, (Fr(2, 3),))])]
     for label, idx, nds, want in cases:
+        nseg = 12 if max(idx, default=0) > 2 else 3
         try:
-            got = split_calls(ctx, idx, nds)
+            cuts, wrong = split_layout(ctx, idx, nds, nseg=nseg)
         except (Undecided, Raised) as ex:
             out.undecided(fn.qname, f"{label}: {ex}", where=fn.where())
             continue
-        norm = [(i, tuple(sorted(ns))) for i, ns in got]
-        if norm != want:
+        # `want` lists (position at the time of the call in increasing order, nodes): the original segment is the
+        # position minus the pieces inserted before it
+        want_cuts, inserted = {}, 0
+        for pos, ns in want:
+            want_cuts[pos - inserted] = tuple(sorted(ns))
+            inserted += len(ns)
+        if wrong or cuts != want_cuts:
+            shown = {k: [str(x) for x in v] for k, v in sorted(cuts.items())}
             out.bad(fn.qname, f"wrong segment addressed after earlier insertions: {label}", where=fn.where(),
-                    detail=f"__split_segment called with {got}, required {want}")
+                    detail=(f"a request addressed {wrong[0]}; " if wrong else "") +
+                           f"original segments cut at {shown}, required "
+                           f"{ {k: [str(x) for x in v] for k, v in sorted(want_cuts.items())} }")
         else:
-            out.ok(fn.qname, f"{label} -> {want}", where=fn.where())
+            out.ok(fn.qname, f"{label} -> segments {sorted(want_cuts)} cut at their own parameters", where=fn.where())
     return out
 
 
